@@ -367,6 +367,12 @@ def _other_sites():
     S["array.polynom_coefficients/object"] = setter("array", "polynom_coefficients", [object()], [1.0])
     S["tag.position/non-numeric"] = setter("tag", "position", ["a"], [1.0])
     S["tag.extent/non-numeric"] = setter("tag", "extent", ["a"], [1.0])
+    # the same unacceptable values as ndarrays, longer / shorter than what is stored (or nothing stored yet)
+    S["array.polynom_coefficients/non-numeric-ndarray"] = setter("array", "polynom_coefficients",
+                                                                np.array(["a", "b", "c"]), [1.0, 2.0])
+    S["array.polynom_coefficients/bytes-ndarray"] = setter("array", "polynom_coefficients", np.array([b"x"]), [1.0, 2.0])
+    S["tag.position/non-numeric-ndarray"] = setter("tag", "position", np.array(["a", "b", "c", "d"]), [1.0])
+    S["tag.extent/non-numeric-ndarray"] = setter("tag", "extent", np.array(["a", "b", "c"]), [1.0])
     S["tag.units/non-string"] = setter("tag", "units", [5], ["mV"])
     S["mtag.units/non-string"] = setter("mtag", "units", [5], ["mV"])
     S["mtag.positions/none"] = setter("mtag", "positions", None, None)
@@ -855,6 +861,7 @@ def run_case(case, ctx):
         os.remove(path)
     it = Interp(path)
     outcomes = []
+    injected = set()
     valid_ops = 0
     try:
         for op in ops.rich_prefix():
@@ -863,6 +870,9 @@ def run_case(case, ctx):
             if "site" in step:
                 if step["site"] not in CATALOGUE:
                     continue
+                if (step["site"], step.get("n", 0)) in injected:
+                    continue        # its valid retry used the same fresh name already
+                injected.add((step["site"], step.get("n", 0)))
                 out = inject(it, step["site"], step.get("n", 0), ctx, case, valid_ops)
                 outcomes.append((step["site"], out, valid_ops))
                 if out in ("changed", "retry-refused"):
